@@ -144,9 +144,9 @@ def backend_key_req(kind):
 
 def open_backend(kind, root, name='A', cached=None, relative=False):
     """create (or re-open) the cache object handed to the decorator.
-    relative: directory archives are named by a RELATIVE path (the caller has made root the working directory)"""
+    relative: directory and single-file archives are named by a RELATIVE path (the caller has made root the working directory)"""
     import klepto.archives as ka
-    if relative and kind.split('_', 1)[-1].startswith('dir_'):
+    if relative and kind.split('_', 1)[-1].startswith(('dir_', 'file_')):
         root = ''             # os.path.join('', 'A_d') == 'A_d'
     if kind == 'none':
         return None
@@ -463,10 +463,10 @@ class Session(object):
         if fn is None and cfg.get('raising'):
             self.fn.set_raising(cfg, cfg['raising'])
         if cacheobj == 'open':
-            rel = bool(cfg.get('relpath')) and cfg['backend'].split('_', 1)[-1].startswith('dir_') and not cfg.get('attach_later')
+            rel = bool(cfg.get('relpath')) and cfg['backend'].split('_', 1)[-1].startswith(('dir_', 'file_')) and not cfg.get('attach_later')
             if rel:
                 # the archive is named relative to the working directory of the moment; 'existing': the directory is already there (a later session)
-                if cfg['relpath'] == 'existing':
+                if cfg['relpath'] == 'existing' and cfg['backend'].split('_', 1)[-1].startswith('dir_'):
                     os.makedirs(os.path.join(root, name + {'dir_dill': '_d', 'dir_fast': '_f', 'dir_z': '_z', 'dir_json': '_j', 'dir_src': '_s'}[cfg['backend'].split('_', 1)[-1]]), exist_ok=True)
                 os.chdir(root)
             # 'attach_later': the function is decorated WITHOUT an archive; a history op attaches one through the public f.archive(obj)
